@@ -1,0 +1,156 @@
+//go:build verif
+
+package schema
+
+// Proof harnesses read by /verif/bin/govc (contract-based deductive verification; see /verif/DESIGN.md).
+// Compiled only under the build tag "verif"; never called. Each harness states one instance of a property as
+// straight-line code over fully symbolic arguments: the verifier checks it against the CONTRACTS of the
+// operations it calls (which are themselves verified against their bodies), so every `panic` below must be
+// proved unreachable for all schemas and all inputs.
+
+// C01 for integer schemas: what Unserialize accepts passes Validate, serializes, and comes back equal - directly
+// and in the representation CBOR hands back (a non-negative integer is decoded as uint64) - and serialization
+// is idempotent; the typed entry points agree with the untyped ones.
+func verifC01Int(s *IntSchema, data any) {
+	r, err := s.Unserialize(data)
+	if err != nil {
+		return
+	}
+	if s.Validate(r) != nil {
+		panic("C01: unserialized value does not validate")
+	}
+	ser, err := s.Serialize(r)
+	if err != nil {
+		panic("C01: unserialized value does not serialize")
+	}
+	r2, err := s.Unserialize(ser)
+	if err != nil || r2 != r {
+		panic("C01: Unserialize after Serialize is not the identity")
+	}
+	ser2, err := s.Serialize(r2)
+	if err != nil {
+		panic("C01: Serialize is not idempotent on wire forms (err)")
+	}
+	if ser2 != ser {
+		panic("C01: Serialize is not idempotent on wire forms")
+	}
+	if w := ser.(int64); w >= 0 {
+		r3, err := s.Unserialize(uint64(w))
+		if err != nil || r3 != r {
+			panic("C01: value changes over the CBOR wire (uint64)")
+		}
+	}
+	tr, err := s.UnserializeType(data)
+	if err != nil || any(tr) != r {
+		panic("C01: UnserializeType disagrees with Unserialize")
+	}
+	if s.ValidateType(tr) != nil {
+		panic("C01: ValidateType disagrees with Validate")
+	}
+	ts, err := s.SerializeType(tr)
+	if err != nil || ts != ser {
+		panic("C01: SerializeType disagrees with Serialize")
+	}
+}
+
+// C01 for float schemas (CBOR hands a float back as float64: the same representation).
+func verifC01Float(s *FloatSchema, data any) {
+	r, err := s.Unserialize(data)
+	if err != nil {
+		return
+	}
+	if s.Validate(r) != nil {
+		panic("C01: unserialized value does not validate")
+	}
+	ser, err := s.Serialize(r)
+	if err != nil {
+		panic("C01: unserialized value does not serialize")
+	}
+	r2, err := s.Unserialize(ser)
+	if err != nil || r2 != r {
+		panic("C01: Unserialize after Serialize is not the identity")
+	}
+	ser2, err := s.Serialize(r2)
+	if err != nil || ser2 != ser {
+		panic("C01: Serialize is not idempotent on wire forms")
+	}
+	tr, err := s.UnserializeType(data)
+	if err != nil || any(tr) != r {
+		panic("C01: UnserializeType disagrees with Unserialize")
+	}
+	if s.ValidateType(tr) != nil {
+		panic("C01: ValidateType disagrees with Validate")
+	}
+	ts, err := s.SerializeType(tr)
+	if err != nil || ts != ser {
+		panic("C01: SerializeType disagrees with Serialize")
+	}
+}
+
+// C01 for string schemas.
+func verifC01String(s *StringSchema, data any) {
+	r, err := s.Unserialize(data)
+	if err != nil {
+		return
+	}
+	if s.Validate(r) != nil {
+		panic("C01: unserialized value does not validate")
+	}
+	ser, err := s.Serialize(r)
+	if err != nil {
+		panic("C01: unserialized value does not serialize")
+	}
+	r2, err := s.Unserialize(ser)
+	if err != nil || r2 != r {
+		panic("C01: Unserialize after Serialize is not the identity")
+	}
+	ser2, err := s.Serialize(r2)
+	if err != nil || ser2 != ser {
+		panic("C01: Serialize is not idempotent on wire forms")
+	}
+	tr, err := s.UnserializeType(data)
+	if err != nil || any(tr) != r {
+		panic("C01: UnserializeType disagrees with Unserialize")
+	}
+	if s.ValidateType(tr) != nil {
+		panic("C01: ValidateType disagrees with Validate")
+	}
+	ts, err := s.SerializeType(tr)
+	if err != nil || ts != ser {
+		panic("C01: SerializeType disagrees with Serialize")
+	}
+}
+
+// C01 for bool schemas.
+func verifC01Bool(s *BoolSchema, data any) {
+	r, err := s.Unserialize(data)
+	if err != nil {
+		return
+	}
+	if s.Validate(r) != nil {
+		panic("C01: unserialized value does not validate")
+	}
+	ser, err := s.Serialize(r)
+	if err != nil {
+		panic("C01: unserialized value does not serialize")
+	}
+	r2, err := s.Unserialize(ser)
+	if err != nil || r2 != r {
+		panic("C01: Unserialize after Serialize is not the identity")
+	}
+	ser2, err := s.Serialize(r2)
+	if err != nil || ser2 != ser {
+		panic("C01: Serialize is not idempotent on wire forms")
+	}
+	tr, err := s.UnserializeType(data)
+	if err != nil || any(tr) != r {
+		panic("C01: UnserializeType disagrees with Unserialize")
+	}
+	if s.ValidateType(tr) != nil {
+		panic("C01: ValidateType disagrees with Validate")
+	}
+	ts, err := s.SerializeType(tr)
+	if err != nil || ts != ser {
+		panic("C01: SerializeType disagrees with Serialize")
+	}
+}
